@@ -269,6 +269,9 @@ func genRFC6902(r *core.RNG, present *[]string) []any {
 			ops = append(ops, map[string]any{"op": "test", "path": "/" + ptrEscape(m), "value": v})
 		case 6:
 			m := core.Pick(r, mine)
+			if m == "tags" || name == "tags" {
+				continue // never alias the array that later operations edit in place
+			}
 			ops = append(ops, map[string]any{"op": "copy", "from": "/" + ptrEscape(m), "path": path})
 			mine = appendUnique(mine, name)
 		default:
